@@ -234,4 +234,49 @@ func init() {
 			"not mechanised: the bound on blocking time and the absence of a spurious final DONE after a failure (whole-history statements over the reader goroutine)",
 		},
 	}
+	properties["C03"] = &Property{
+		ID:    "C03",
+		Title: "Each response is delimited by exactly one final DONE and fully drained",
+		Pkgs:  []string{"./tds"},
+		Funcs: []string{`^\(\*tds\.Channel\)\.(tryParsePackage|WritePacket|NextPackage|NextPackageUntil)$`, `^tds\.isDoneFinal$`},
+		Assumptions: []string{
+			"the values received from Channel.packageCh satisfy the channel invariant checked at every send in tryParsePackage / WritePacket (the link between sends and receives of one channel is assumed, goroutines are not modelled)",
+			"the consumer's callback passed to NextPackageUntil does not reach unexported library state",
+			"PacketQueue.IsEOM / Byte contracts (C15)",
+		},
+		Notes: []string{
+			"proved (unbounded): tryParsePackage hands the consumer only completely parsed packages or the synthetic final DONE, and creates the synthetic DONE only when the receive queue is at the end of a message that carried the end-of-message flag and the last delivered package was not already a final DONE (so a response gets at most one final DONE from the library and none in the middle of a message); isDoneFinal is exactly 'DONE with status 0'; NextPackage / NextPackageUntil record every delivered package in the reply script and return the last delivered package",
+			"not mechanised: that NextPackageUntil drains the rest of the response after a callback error (the recursion goes through closures whose acceptance condition the contracts cannot name), exactly-once delivery across requests, and the behaviour of stale lastPkgRx across Reset (whole-history statements)",
+		},
+	}
+	properties["C08"] = &Property{
+		ID:    "C08",
+		Title: "Login succeeds exactly when the server accepted it",
+		Pkgs:  []string{"./tds"},
+		Funcs: []string{`^\(\*tds\.Channel\)\.(Login|Login\$1|NextPackage|handleSpecialPackage)$`},
+		Assumptions: []string{
+			"the reply script ghosts ($rxn, $rxtag, $rxst) are maintained by NextPackage's contract; NextPackageUntil is used through its contract (it returns the last package of the script)",
+			"rsaEncrypt, generateSymmetricKey, LookupFieldFmtData and the package constructors are used through inferred mod-sets only (no functional contract); crypto/rsa is outside the generator",
+			"the values received from Channel.packageCh satisfy the channel invariant checked at the sends",
+			"context expiry and waiting time are not modelled",
+		},
+		Notes: []string{
+			"proved (unbounded, every reply script): Login returns nil in the plain flow only if exactly two packages were consumed, LOGINACK with status SUCCEED then DONE with final status; in the encrypted flow only if the script starts LOGINACK(NEGOTIATE), MSG(SEC_ENCRYPT4), PARAMFMT, PARAMS, DONE and ends CAPABILITY, DONE(final); encryption methods below ENCRYPT4 are rejected; the acknowledgement filter accepts exactly LOGINACK(SUCCEED) and turns every other LOGINACK into an error; a packet size announced by the server is taken over only if it fits the packet header (8 < size <= 65535)",
+			"not mechanised: the 'exactly when' direction (a valid acceptance yields success needs liveness of the reader goroutine), the parameter count/type checks as part of the script predicate, wrong message ids inside NextPackageUntil, and all timing statements",
+		},
+	}
+	properties["C09"] = &Property{
+		ID:    "C09",
+		Title: "Passwords never cross the wire in clear when encryption is negotiated",
+		Pkgs:  []string{"./tds"},
+		Funcs: []string{`^\(\*tds\.LoginConfig\)\.pack$`, `^tds\.(writeString|writeBasedOnEndian)$`},
+		Assumptions: []string{
+			"bytes.Buffer contract (/verif/specs/bytes.spec): an append-only byte sink whose content is the ghost stream of the buffer object",
+			"the RSA-OAEP part (what is sent instead of the password, fresh randomness, the session key) lives in crypto/rsa and crypto/rand and is outside the generator: not decided here",
+		},
+		Notes: []string{
+			"proved (unbounded, all passwords and names): when one of the encrypting message ids is configured the 31 bytes of the login record's password slot (offsets 62..92, value and length byte) are zero; the remote-password slot (offsets 202..457) is zero in every configuration; in the plain flow the slot holds the password and its length (control, so the clause is not vacuous); oversized fields are rejected, never truncated or shifted (writeString writes nothing and fails when len(s) > padTo); host name, user name and TDS version sit at their fixed offsets",
+			"not mechanised: absence of the password from error texts and from the packets of the negotiation phase (an information-flow statement over Login, rsaEncrypt and fmt), decryptability under the server key, freshness of randomness",
+		},
+	}
 }
